@@ -64,10 +64,11 @@ def run_property(prop: str, repo_root: str, tier: str, explain: str = "", quiet:
         res["errors"].append("%s" % ex)
     except Exception as ex:  # checker bug: never a verdict
         res["errors"].append("internal checker exception: %r\n%s" % (ex, traceback.format_exc()))
-    if res["errors"]:
-        res["status"] = "error"
-    elif res["violations"]:
+    # a violation found by a rule that completed stands even if another rule could not be instantiated
+    if res["violations"]:
         res["status"] = "violation"
+    elif res["errors"]:
+        res["status"] = "error"
     res["wall_s"] = time.time() - t0
     return res
 
@@ -202,6 +203,8 @@ def main(argv: List[str]) -> int:
         return 2
     if res["violations"]:
         rp = write_replay(prop, res, a.repo)
+        for e in res["errors"]:
+            print("  note: a rule could not be instantiated on this tree (%s)" % e[:300])
         for i in res["violations"]:
             print("  %s rule=%s construct=%s :: %s :: %s" % (i.where, i.rule, i.construct, i.key, i.message))
         print("VIOLATION property=%s replay=%s" % (prop, rp))
